@@ -3,7 +3,7 @@
    every syntax error carries the recorded start of a token, a position inside the text.
    That the Go code itself has no panic / hang is exhibited by the harness only (partial by nature). *)
 From Coq Require Import NArith ZArith List.
-From Acme.C08 Require Import DbcAst Chars DbcLex DbcParse ProofsLex ProofsPos ProofsTotal ProofsErrPos.
+From Acme.C08 Require Import DbcAst Chars DbcLex DbcParse ProofsLex ProofsPos ProofsTotal ProofsErrPos ProofsPrefix.
 From Acme.C09 Require Import ImportSkeleton ImportProofs.
 Import ListNotations.
 Local Open Scope N_scope.
@@ -67,6 +67,32 @@ Theorem error_position_offending : forall ud prs hex text l c,
              end.
 Proof. exact ProofsErrPos.error_position_offending. Qed.
 Print Assumptions error_position_offending.
+
+(* The reported token is pinned by prefix determinism (ProofsPrefix: [local] for every section parser,
+   every loop and the file loop).  [err_index] is the index of the token the error is raised at;
+   [error_position_index] ties the line and column of dbc.Parse to it. *)
+Theorem error_position_index : forall ud prs hex text l c,
+  parse ud prs hex text = OSyntax l c ->
+  exists raw i, lex ud text = Some raw /\ err_index prs hex (map strip (pfilter raw)) = Some i /\
+    (l, c) = match nth_error (pfilter raw) i with
+             | Some t => (rt_line t, rt_col t)
+             | None => match last_opt (pfilter raw) with Some t => (rt_line t, rt_col t) | None => (1, 0) end
+             end.
+Proof. exact ProofsPrefix.error_position_index. Qed.
+Print Assumptions error_position_index.
+
+(* every token list sharing the tokens up to and including the offending one fails at that token *)
+Theorem error_token_determined : forall prs hex ts i, err_index prs hex ts = Some i -> (i < length ts)%nat ->
+  forall ts', firstn (S i) ts' = firstn (S i) ts -> err_index prs hex ts' = Some i.
+Proof. exact ProofsPrefix.error_index_determined. Qed.
+Print Assumptions error_token_determined.
+
+(* no token list sharing the tokens before the offending one is rejected at an earlier token: the
+   offending token is the first at which the prefix stops being acceptable *)
+Theorem error_token_first : forall prs hex ts i, err_index prs hex ts = Some i ->
+  forall ts' j, firstn i ts' = firstn i ts -> err_index prs hex ts' = Some j -> (i <= j)%nat.
+Proof. exact ProofsPrefix.error_index_first. Qed.
+Print Assumptions error_token_first.
 
 (* ... which in numbers means: 1 <= line <= 1 + newlines of the text, col <= 5 per character *)
 Theorem error_position_bounds : forall text l c, valid_pos text (l, c) ->
